@@ -158,7 +158,7 @@ fn run_bytes(ctx: &mut Ctx, spaces: Vec<ByteSpace>, f: impl Fn(&[u8], &mut Local
 fn byte_bounds(ctx: &mut Ctx) {
     ctx.bound("S1", "byte0 (all 256) x 13 packet types x 7 length-field variants x lengths 0..=56 x 6 last bytes x 3 fills; and all 256 packet types on a reduced first/last byte alphabet");
     ctx.bound("S2", ctx.tier.pick("base set W (~190 packets): every 1-byte substitution over all 256 values; every 2-byte substitution over 12 symbols for bases <= 24 bytes", "k=1 over 256 values; k=2 over 26 symbols for bases <= 48 bytes"));
-    ctx.bound("S6 / tiles", "giants (262144-byte packets of each type, giant feedback packets under each FCI gate, 65536 BYEs ...) all concatenations of 1..=3 tiles of the 12-kind tile menu, and chains of {7,8,9,15..18,31..34,63,65,130,255,256,257,300,513,1025} mixed-size tiles x 12 tails");
+    ctx.bound("S6 / tiles", "giants (262144-byte packets of each type, giant feedback packets under each FCI gate, 65536 BYEs ...) all concatenations of 1..=3 tiles of the 15-kind tile menu, and chains of {7,8,9,15..18,31..34,63,65,130,255,256,257,300,513,1025} mixed-size tiles x 12 tails");
     ctx.bound("S5", "every truncation and +1..+8 extension of W, with/without length re-synchronisation");
     ctx.assume("byte strings outside these spaces are not explored");
 }
